@@ -148,6 +148,11 @@ func (r *Reader) Read(p []byte) (n int, err error) {
 func (r *Reader) Discard() (err error) {
 	for {
 		_, err = io.Copy(ioutil.Discard, &r.raw)
+		if err == nil && r.raw.N != 0 {
+			// io.Copy() treats io.EOF from the source as success, so the
+			// frame payload was cut before all of its bytes were received.
+			err = io.ErrUnexpectedEOF
+		}
 		if err != nil {
 			break
 		}
@@ -222,6 +227,10 @@ func (r *Reader) NextFrame() (hdr ws.Header, err error) {
 			if err == nil {
 				// Ensure that src is empty.
 				_, err = io.Copy(ioutil.Discard, &r.raw)
+				if err == nil && r.raw.N != 0 {
+					// See the note in Discard().
+					err = io.ErrUnexpectedEOF
+				}
 			}
 			return hdr, err
 		}
